@@ -722,3 +722,54 @@ Fixpoint add_setup_except_loop (entries : list exc_entry) (seen : list N) (items
 
 Definition add_setup_except (entries : list exc_entry) (items : list xitem) : res (list xitem) :=
   add_setup_except_loop entries [] items.
+
+(* ---- well-formedness of an offset table + exception table (monitored on every real code object) ------------ *)
+Definition has_keyb (k : N) (items : list xitem) : bool := existsb (fun it => N.eqb (x_key it) k) items.
+
+Fixpoint sorted_keysb (l : list xitem) : bool :=
+  match l with
+  | [] => true
+  | a :: t => match t with b :: _ => N.ltb (x_key a) (x_key b) | [] => true end && sorted_keysb t
+  end.
+
+(* entries in table order: each starts at or after [b], start <= (inclusive) end, the next one starts after the end *)
+Fixpoint bounded_fromb (b : N) (es : list exc_entry) : bool :=
+  match es with
+  | [] => true
+  | e :: r => N.leb b (e_start e) && N.leb (e_start e) (e_end e) && bounded_fromb (e_end e + 1) r
+  end.
+
+(* the offset table holds only real instructions (key 2*off+1 with off even, i.e. key mod 4 = 1: wordcode), sorted
+   by offset; every entry starts and is handled at an instruction; the entries are sorted and pairwise disjoint *)
+Definition wf_excb (items : list xitem) (entries : list exc_entry) : bool :=
+  sorted_keysb items &&
+  forallb (fun it => N.eqb (x_key it mod 4) 1) items &&
+  forallb (fun e => has_keyb (key_of (e_start e)) items && has_keyb (key_of (e_target e)) items) entries &&
+  bounded_fromb 0 entries.
+
+(* the entries _add_setup_except keeps: handler not an ignored opcode, not lasti, first kept entry of its line *)
+Fixpoint kept_loop (entries : list exc_entry) (seen : list N) (items : list xitem) : list exc_entry :=
+  match entries with
+  | [] => []
+  | e :: rest =>
+    match find_x (key_of (e_target e)) items, find_x (key_of (e_start e)) items with
+    | Some t, Some s =>
+      if memN (x_opc t) ignored_exception_targets then kept_loop rest seen items
+      else if negb (e_lasti e) && negb (memN (x_line s) seen)
+           then e :: kept_loop rest (x_line s :: seen) items
+           else kept_loop rest seen items
+    | _, _ => []
+    end
+  end.
+Definition kept_entries (entries : list exc_entry) (items : list xitem) : list exc_entry :=
+  kept_loop entries [] items.
+
+(* bracket check along a key sequence: key mod 4 = 0 is a SETUP_EXCEPT_311 (opens), key mod 4 = 2 a POP_BLOCK
+   (closes); never two open at once, none open at the end *)
+Fixpoint brk (ks : list N) (opened : bool) : bool :=
+  match ks with
+  | [] => negb opened
+  | k :: t => if N.eqb (k mod 4) 0 then negb opened && brk t true
+              else if N.eqb (k mod 4) 2 then opened && brk t false
+              else brk t opened
+  end.
